@@ -72,6 +72,15 @@ def _job(job):
     return ev, d, job
 
 
+def _file_event_side(t):
+    """columns (digests) and result header values of a table, for a TraceResultsFile `file` event"""
+    from drivers.c16 import _val
+    from nssverif.pipeline import col_digest, is_config_key
+    cols = list(t.colnames)
+    keys = [k for k in t.meta.keys() if not is_config_key(k) and str(k).upper() not in ("SIMTIME", "EXTNAME", "COMMENTS")]
+    return {"cols": cols, "dig": [col_digest(t[c]) for c in cols], "meta": [[str(k).upper(), _val(t.meta[k], {})] for k in keys]}
+
+
 def _cli_job(job):
     """the same run through the `nuspacesim run` command line; compares the file it writes with the API result"""
     use_repo()
@@ -93,14 +102,14 @@ def _cli_job(job):
         if res.exit_code != 0 or not os.path.exists(out):
             return None, None, dict(job, cli_error=str(res.exception)[:300] + res.output[-300:])
         t = Table.read(out, format="fits", astropy_native=True)
-        dcli = _digests(t)
+        dcli = _file_event_side(t)
         # API run on the configuration as the CLI read it
         cfg = config_from_toml(toml)
         comp = importlib.import_module("nuspacesim.compute")
         np.random.seed(job["seed"])
         with dask.config.set(scheduler="synchronous"), contextlib.redirect_stdout(io.StringIO()):
             sim = comp.compute(cfg)
-        return None, (dcli, _digests(sim)), job
+        return None, (dcli, _file_event_side(sim)), job
     finally:
         shutil.rmtree(d, ignore_errors=True)
 
@@ -139,6 +148,7 @@ def run(tier="quick", seed=0):
                      "args": ["-w"]})
     results = par.pmap(_job, jobs, workers=14)
     toks = pipeline.Tokens()
+    cli_file_events = []
     run_events, traces = [], []
     cli_checked = 0
     for ev, d, job in results:
@@ -148,9 +158,12 @@ def run(tier="quick", seed=0):
                 continue
             dcli, dapi = d
             cli_checked += 1
-            if dcli != dapi:
-                pr.add_violation("C14 the file written by the CLI equals the table returned by compute()", {"job": job,
-                                 "cli_cols": dcli["cols"], "api_cols": dapi["cols"]}, source="cli")
+            tk = {}
+            cli_file_events.append({"kind": "file", "cols": dapi["cols"], "colsBack": dcli["cols"],
+                                    "dig": [tk.setdefault(x, len(tk) + 1) for x in dapi["dig"]],
+                                    "digBack": [tk.setdefault(x, len(tk) + 1) for x in dcli["dig"]] + [0] * max(0, len(dapi["dig"]) - len(dcli["dig"])),
+                                    "meta": dapi["meta"], "metaBack": dcli["meta"],
+                                    "_m": {"job": job, "what": "table returned by compute() (before) vs file written by `nuspacesim run` (after)"}})
             continue
         traces.append(ev)
         if d is None:
@@ -172,6 +185,9 @@ def run(tier="quick", seed=0):
     for e in run_events:
         by_base.setdefault(e["base"], []).append(e)
     pr.validate("TraceRuns", None, name="run-matrix", groups=list(by_base.values()))
+    if cli_file_events:
+        # the file the CLI writes vs the API result: decided by TLC with the file clauses of ResultsFile.tla
+        pr.validate("TraceResultsFile", cli_file_events + [{"kind": "end", "_m": {}}], name="cli-file-vs-api", chunks=1)
     # per-row cross-stage consistency of the final tables (default table version 3)
     from nssverif import tables
     rows = [e for _, _, job in results for e in (job.get("rows") or [])]
